@@ -100,11 +100,14 @@ def compare(res, prog, ref, real, label=''):
                          text, ref.unspec, _flat_str(exp[max(0, i - 5):]),
                          _flat_str(got[max(0, i - 5):]), i))
         return
-    zt_list = 'zerotrip-into-next-list' in ref.flags
+    # (fixed 7a22afc6) own bucket: the run stops with Syntax error on the line of a NEXT list that a
+    # zero-trip FOR entered in the middle, after a correct prefix of the trace
+    zt_list = bool(real.errors) and real.errors[0][0] == 2 and \
+        real.errors[0][1] in ref.ztlist_lines and got == exp[:len(got)]
     if got != exp:
         i = _first_diff(exp, got)
         key = 'trace'
-        if zt_list and (2 in [c for c, _l in real.errors]):
+        if zt_list:
             key = 'for.zerotrip-next-list.syntax-error'
         res.fail(key, '%s\nreference: %s\nreal:      %s\nfirst difference at item %d; real errors %r, '
                  'reference final %r' % (text, _flat_str(exp[max(0, i - 5):]),
@@ -114,7 +117,7 @@ def compare(res, prog, ref, real, label=''):
     if ref.final is None:
         if real.errors:
             key = 'final.spurious-error'
-            if zt_list and real.errors[0][0] == 2:
+            if zt_list:
                 key = 'for.zerotrip-next-list.syntax-error'
             res.fail(key, '%s\nreference ends normally, real reports %r' % (text, real.errors))
     else:
@@ -326,7 +329,7 @@ def _nl():
     return st.sampled_from([False, False, True])
 
 
-def leaf(in_sub, depth_left):
+def leaf(in_sub, depth_left, extra=None):
     tag = st.builds(lambda nl: {'t': 'tag', 'nl': nl}, _nl())
     pv = st.builds(lambda nl, up: {'t': 'pv', 'up': up, 'nl': nl}, _nl(), st.integers(0, 2))
     gosub = st.builds(lambda nl, k: {'t': 'gosub', 'k': k, 'nl': nl}, _nl(), st.integers(0, 7))
@@ -343,6 +346,8 @@ def leaf(in_sub, depth_left):
     opts = [(20, tag), (8, pv), (8, gosub), (2, bump), (4, skip), (4, ongosub), (2, rare)]
     if in_sub:
         opts.append((2, st.just({'t': 'return'})))
+    if extra:
+        opts.extend(extra)
     return _weighted(opts)
 
 
@@ -367,17 +372,17 @@ def selector(narms):
                                       [-1, 255, 256, 256, 255.25, 32767, -32768, -0.75,
                                        255.75]))
     ctr = st.builds(lambda up, c: {'k': 'ctr', 'up': up, 'c': c}, st.integers(0, 2),
-                    st.sampled_from([0, 0, 0, 1, 1, -1]))
+                    st.sampled_from([0, 0, 0, 1, 1]))
     return st.one_of(const, ctr, ctr)
 
 
-def stmt(depth_left, in_sub):
-    lf = leaf(in_sub, depth_left)
+def stmt(depth_left, in_sub, extra=None):
+    lf = leaf(in_sub, depth_left, extra)
     if depth_left <= 0:
         return lf
-    inner = block(depth_left - 1, in_sub)
-    small = block(depth_left - 1, in_sub, max_size=2)
-    trips_hi = 4 if depth_left <= 2 else 3
+    inner = block(depth_left - 1, in_sub, extra=extra)
+    small = block(depth_left - 1, in_sub, max_size=2, extra=extra)
+    trips_hi = 3 if depth_left >= 2 else 2
 
     def build_for(ty, si, neg, trips, region, offs, slack, a0, zs, named, comb, pa, bv, body,
                   nl, nnl, special):
@@ -389,6 +394,8 @@ def stmt(depth_left, in_sub):
             d['boff'] = 1 if special == 'bref1' else 0
             if region == 'mid' and ty == '%':
                 d['a'] = a0 % 3
+        elif special == 'bfrac':
+            d['bfrac'] = 1 if offs % 2 else -1
         elif special is not None:
             d[special] = True
         if comb:
@@ -399,13 +406,32 @@ def stmt(depth_left, in_sub):
             d['bv'] = True
         return d
     for_ = st.builds(build_for, st.sampled_from(['%', '%', '!']), st.integers(0, 11),
-                     st.booleans(), st.sampled_from([0] + list(range(1, trips_hi + 1)) * 2),
+                     st.booleans(),
+                     st.sampled_from([0] + list(range(1, trips_hi + 1)) * (4 if depth_left >= 3 else 2)),
                      st.sampled_from(['mid'] * 19 + ['edge', 'edge', 'edge-ovf', 'start-edge', 'start-edge']),
                      st.integers(0, 3),
                      st.integers(0, 7), st.integers(-20, 20),
-                     st.sampled_from([False] * 30 + [True]), st.booleans(), st.booleans(),
+                     st.sampled_from([False] * 120 + [True]), st.booleans(), st.booleans(),
                      st.booleans(), st.sampled_from([False] * 11 + [True]), inner, _nl(), _nl(),
-                     st.sampled_from([None] * 24 + ['bref'] * 3 + ['bref1', 'renext', 'wrongnext']))
+                     st.sampled_from([None] * 24 + ['bref'] * 3 + ['bref1', 'bfrac', 'bfrac', 'renext',
+                                                                   'wrongnext']))
+    # NEXT lists (NEXT K,J,I) with zero-trip loops at any level of the list
+    def build_list(levels, leaves, nl):
+        node = None
+        for (ty, si, neg, trips, a0, slack, named), lv in zip(levels, leaves):
+            a, b, s = mk_for(ty, si % 3, neg, trips, 'mid', 0, slack, a0, False)
+            body = list(lv)
+            if node is not None:
+                body.append(node)
+            node = {'t': 'for', 'ty': ty, 'a': a, 'b': b, 's': s, 'named': True, 'body': body,
+                    'comb': True, 'nl': nl}
+        return node
+    level = st.tuples(st.sampled_from(['%', '%', '!']), st.integers(0, 2), st.booleans(),
+                      st.sampled_from([0, 0, 1, 2, 2, 3]), st.integers(-3, 3), st.integers(0, 3),
+                      st.booleans())
+    nextlist = st.integers(2, 3).flatmap(lambda n: st.builds(
+        build_list, st.lists(level, min_size=n, max_size=n),
+        st.lists(st.lists(lf, min_size=0, max_size=2), min_size=n, max_size=n), _nl()))
     while_ = st.builds(lambda n, body, nl, wnl, nnl, rw: {'t': 'while', 'n': n, 'body': body,
                                                           'nl': nl, 'wnl': wnl, 'nnl': nnl,
                                                           'rewend': rw},
@@ -435,21 +461,24 @@ def stmt(depth_left, in_sub):
                        selector(3), st.lists(small, min_size=1, max_size=3), st.booleans(), _nl())
     if depth_left >= 3:
         return _weighted([(4, lf), (7, for_), (3, while_), (2, back), (3, if_), (1, nested_if),
-                          (1, ongoto)])
+                          (1, ongoto), (1, nextlist)])
     return _weighted([(7, lf), (4, for_), (2, while_), (1, back), (3, if_), (1, nested_if),
-                      (1, ongoto)])
+                      (1, ongoto), (1, nextlist)])
 
 
-def block(depth_left, in_sub, max_size=4):
-    return st.lists(stmt(depth_left, in_sub), min_size=1, max_size=max_size)
+def block(depth_left, in_sub, max_size=4, extra=None):
+    return st.lists(stmt(depth_left, in_sub, extra), min_size=2 if (depth_left >= 1 and max_size > 2) else 1,
+                    max_size=max_size)
 
 
 def strat_tree():
-    def build(main, subs, step, first):
-        return {'main': main, 'subs': subs, 'numstep': step, 'numfirst': first}
-    return st.builds(build, st.lists(stmt(3, False), min_size=2, max_size=5),
+    def build(main, subs, step, first, maxfatal):
+        return {'main': main, 'subs': subs, 'numstep': step, 'numfirst': first,
+                'maxfatal': maxfatal}
+    return st.builds(build, st.lists(stmt(3, False), min_size=3, max_size=6),
                      st.lists(block(2, True, max_size=3), min_size=1, max_size=4),
-                     st.sampled_from([10, 10, 1, 7, 100]), st.sampled_from([10, 10, 2, 1000]))
+                     st.sampled_from([10, 10, 1, 7, 100]), st.sampled_from([10, 10, 2, 1000]),
+                     st.sampled_from([0, 0, 1, 1, 1, 2]))
 
 
 def strat_chain():
@@ -463,6 +492,28 @@ def strat_chain():
                      st.lists(block(1, True, max_size=2), min_size=6, max_size=8))
 
 
+ON_VALUES = [-32768, -2, -1, -0.75, -0.25, 0, 0.25, 0.75, 1, 1.25, 1.75, 2, 2.25, 3, 3.25, 4, 5, 100,
+             254.75, 255, 255.25, 255.75, 256, 257, 1000, 32767]
+
+
+def gen_on(shard, nshards, tier, seed):
+    """Every boundary selector value x list length x GOTO/GOSUB, with statements after the ON."""
+    cases = []
+    for v in ON_VALUES:
+        for n in (1, 2, 3):
+            cases.append({'main': [{'t': 'tag'},
+                                   {'t': 'on', 'kind': 'goto', 'sel': {'k': 'const', 'v': v},
+                                    'arms': [[{'t': 'tag'}] for _ in range(n)], 'nl': n == 2},
+                                   {'t': 'tag'}], 'subs': [], 'maxfatal': 1})
+            cases.append({'main': [{'t': 'tag'},
+                                   {'t': 'on', 'kind': 'gosub', 'sel': {'k': 'const', 'v': v},
+                                    'subs': list(range(n)), 'nl': n == 2},
+                                   {'t': 'tag', 'nl': n == 3}, {'t': 'tag'}],
+                          'subs': [[{'t': 'tag'}], [{'t': 'tag'}, {'t': 'tag'}], [{'t': 'tag'}]],
+                          'maxfatal': 1})
+    return cases[shard::nshards]
+
+
 def gen_corpus(shard, nshards, tier, seed):
     for name in CORPUS[shard::nshards]:
         yield {'u': 'corpus', 'name': name}
@@ -471,15 +522,16 @@ def gen_corpus(shard, nshards, tier, seed):
 def units(tier):
     return [
         Unit('corpus', 'enum', shards=4, gen=gen_corpus),
-        Unit('trees', 'hyp', shards=16, examples={'quick': 110, 'thorough': 5000},
-             strategy=strat_tree),
-        Unit('gosub-chains', 'hyp', shards=16, examples={'quick': 12, 'thorough': 400},
-             strategy=strat_chain),
+        Unit('on-values', 'enum', shards=4, gen=gen_on, exhaustive=False),
+        Unit('trees', 'hyp', shards=16, examples={'quick': 300, 'thorough': 8000},
+             strategy=strat_tree, per_case_timeout=120.0),
+        Unit('gosub-chains', 'hyp', shards=16, examples={'quick': 30, 'thorough': 800},
+             strategy=strat_chain, per_case_timeout=120.0),
     ]
 
 
 REGRESSIONS = [
-    # finding: zero-trip inner loop closed by a NEXT list (NEXT J,I) -> Syntax error
+    # fixed 7a22afc6: zero-trip inner loop closed by a NEXT list (NEXT J,I) raised Syntax error
     {'main': [{'t': 'for', 'ty': '!', 'a': 1, 'b': 2, 's': None, 'named': True, 'body': [
         {'t': 'tag'},
         {'t': 'for', 'ty': '!', 'a': 3, 'b': 1, 's': None, 'named': True, 'comb': True,
@@ -493,4 +545,20 @@ REGRESSIONS = [
                'body': [{'t': 'pv', 'up': 0}]}, {'t': 'tag'}], 'subs': []},
 ]
 
-KILLS = []
+KILLS = [
+    "interpreter.py for_: zero-trip test start>=stop (gte) -> trace",
+    "interpreter.py return_: no skip_to(END_STATEMENT) after RETURN -> trace (ON n GOSUB a,b,c with n < last)",
+    "interpreter.py on_jump_: i == onvar instead of onvar-1 -> trace",
+    "interpreter.py on_jump_: range_check(0, 256) -> trace (unit on-values, ON 256)",
+    "interpreter.py iterate_loop: loop ends when counter >= stop -> trace",
+    "interpreter.py iterate_loop: match the top FOR record regardless of NEXT position -> trace",
+    "interpreter.py iterate_loop: finished loop record not popped -> trace (GOTO back to NEXT after the loop; corpus FORNEXT6)",
+    "interpreter.py wend_: records of loops left by GOTO not discarded -> trace / final.error-code",
+    "interpreter.py _check_while_condition: WHILE record kept after a false condition -> trace",
+    "interpreter.py jump_sub: GOSUB stack used as a queue -> trace, final.error-line",
+    "interpreter.py _find_next: NEXT variable not compared -> trace (wrong NEXT variable)",
+    "interpreter.py _find_next: FOR without NEXT raises error 1 -> final.error-code",
+    "statements.py _parse_if: nested IF not counted / ELSE not un-counted when skipping to ELSE -> trace",
+    "SURVIVED (unspecified domain): iterate_loop 'sgn > 0' -> '>= 0' only changes STEP 0, which statement and manual leave open",
+    "SURVIVED (equivalent): iterate_loop not truncating for_stack above the matching record - records above a match are stale and never matched again",
+]
